@@ -166,11 +166,20 @@ def assemble(template_path, repo):
         return open(path).read().split('\n')
 
     lines = load(template_path)
+    # pre-expand INCLUDEs (recursively) so they may appear anywhere, also inside FN blocks
+    k = 0
+    while k < len(lines):
+        st0 = lines[k].strip()
+        if st0.startswith('//@@ INCLUDE'):
+            inc = st0.split(None, 2)[2].strip()
+            lines[k:k + 1] = load(os.path.join(CONTRACTS, inc))
+            continue
+        k += 1
     i = 0
     while i < len(lines):
         ln = lines[i]
         st = ln.strip()
-        if st.startswith('//@@ INCLUDE'):
+        if False and st.startswith("//@@ INCLUDE"):
             inc = st.split(None, 2)[2].strip()
             sub = load(os.path.join(CONTRACTS, inc))
             lines[i:i + 1] = sub
